@@ -699,6 +699,41 @@ func (c *Ctx) dischargeIndex(s *PanicSite, depth int) (bool, string) {
 	if ie.K == "bin" && ie.S == "-" && ie.Args[0].String() == "len("+xe.String()+")" && isConst(ie.Args[1], "1") {
 		return c.requireLen(s, xe, 1, depth)
 	}
+	// (e') an array has a static length N: index tested < K for a constant K <= N, and not negative (unsigned,
+	// a counter from 0, or tested 0 <= index)
+	if n := staticArrayLen(s.X.Type()); n >= 0 {
+		below := &Cond{Name: "index < constant <= array length", Match: func(f *Fact, o2 *Origins) bool {
+			if f.Kind != "cmp" || !f.Pos || f.A.String() != ie.String() || f.B.K != "const" {
+				return false
+			}
+			k, err := strconv.ParseInt(f.B.S, 10, 64)
+			if err != nil {
+				return false
+			}
+			return (f.Op.String() == "<" && k <= n) || (f.Op.String() == "<=" && k < n)
+		}}
+		if ok, _ := o.Requires(s.Instr, below); ok {
+			nn := nonNegative(ie)
+			if b, isB := s.Idx.Type().Underlying().(*types.Basic); isB && b.Info()&types.IsUnsigned != 0 {
+				nn = true
+			}
+			if !nn {
+				lower := &Cond{Name: "0 <= index", Match: func(f *Fact, o2 *Origins) bool {
+					if f.Kind != "cmp" || !f.Pos {
+						return false
+					}
+					return (f.Op.String() == "<=" && isConst(f.A, "0") && f.B.String() == ie.String()) ||
+						(f.Op.String() == ">=" && f.A.String() == ie.String() && isConst(f.B, "0")) ||
+						(f.Op.String() == "<" && isConst(f.A, "-1") && f.B.String() == ie.String()) ||
+						(f.Op.String() == ">" && f.A.String() == ie.String() && isConst(f.B, "-1"))
+				}}
+				nn, _ = o.Requires(s.Instr, lower)
+			}
+			if nn {
+				return true, "index tested within the static length of the array"
+			}
+		}
+	}
 	return false, "index " + short(ie.String(), 80) + " into " + short(xe.String(), 80) + " not proven in range"
 }
 
@@ -1168,4 +1203,15 @@ func fromExternalService(e *Ex) bool {
 		}
 	}
 	return false
+}
+
+// staticArrayLen: the length of an array type (or pointer to array), -1 for anything else.
+func staticArrayLen(t types.Type) int64 {
+	if p, ok := t.Underlying().(*types.Pointer); ok {
+		t = p.Elem()
+	}
+	if a, ok := t.Underlying().(*types.Array); ok {
+		return a.Len()
+	}
+	return -1
 }
